@@ -671,6 +671,28 @@ Definition step_pad (st : state) (o : op) : state * status :=
 Definition run_pad (ops : list op) (t : nat) : state :=
   fold_left (fun s o => fst (step_pad s o)) (firstn t ops) init.
 
+(* ---- the defect class "an operation tidies up a slice it was handed — and the slice is another mesh's" ---------------
+   Materials() hands out the mesh's own slice.  A SetMaterials that drops the ranges without primitives IN PLACE (the
+   in-place filter idiom kept := mat[:0]; kept = append(kept, ...) on its argument) writes, in
+   x.SetMaterials(y.Materials()), into the array y and everything sharing y's materials report from. *)
+Definition compact_mats (h : heap) (s : slice) : heap * slice :=
+  let kept := filter (fun c => negb (Z.eqb (nth 0 c 0%Z) 0)) (read h s) in
+  (store_list h (ptr s) 0 kept, mkSlice (ptr s) (length kept) (cap s)).
+Definition step_tidy (st : state) (o : op) : state * status :=
+  match o with
+  | OShareMats i j =>
+      match nth_error (pool st) i, nth_error (pool st) j with
+      | Some gi, Some gj =>
+          let (h1, s) := compact_mats (heap_of st) (g_mats gj) in
+          (mkState h1 (maps_of st)
+                   (pool st ++ [mkG (g_topo gi) (g_idx gi) s (g_v1 gi) (g_v2 gi) (g_v3 gi) (g_v4 gi)]), Ok)
+      | _, _ => (st, Declared)
+      end
+  | _ => step true st o
+  end.
+Definition run_tidy (ops : list op) (t : nat) : state :=
+  fold_left (fun s o => fst (step_tidy s o)) (firstn t ops) init.
+
 End Model.
 
 (* the growth policy used for the refutation of the pinned Append: double, or exactly n if that is more *)
